@@ -27,6 +27,9 @@ enum Family {
     /// a counted repetition that is the whole pattern: shape 0 = a{n}, 1 = (ab){n}, 2 = a{n,},
     /// 3 = a{n-n/3,n}
     Pure { n: usize, shape: usize },
+    /// all k*k two-letter keywords over k letters (U+0100 ..), each with its own token type: a wide
+    /// automaton of depth two (k = 182 crosses 65 535 unminimized states)
+    Pairs { k: usize },
 }
 
 fn family_of(v: &Value) -> Option<Family> {
@@ -44,6 +47,7 @@ fn family_of(v: &Value) -> Option<Family> {
         "chain_group" => Family::ChainGroup { n: n("n")? },
         "numbered" => Family::Numbered { n: n("n")? },
         "pure" => Family::Pure { n: n("n")?, shape: n("shape")? },
+        "pairs" => Family::Pairs { k: n("k")? },
         _ => return None,
     })
 }
@@ -59,6 +63,7 @@ fn family_json(f: &Family) -> Value {
         Family::ChainGroup { n } => json!({"kind": "chain_group", "n": n}),
         Family::Numbered { n } => json!({"kind": "numbered", "n": n}),
         Family::Pure { n, shape } => json!({"kind": "pure", "n": n, "shape": shape}),
+        Family::Pairs { k } => json!({"kind": "pairs", "k": k}),
     }
 }
 
@@ -160,6 +165,37 @@ fn instance(f: &Family) -> (Vec<scnr::Pattern>, Vec<(String, Vec<Tok>)>) {
             input.push_str(&kw(*n + 7));
             (pats, vec![(input, exp)])
         }
+        Family::Pairs { k } => {
+            let k = *k;
+            let letter = |i: usize| char_of(0x100 + i);
+            let word = |w: usize| -> String { [letter(w / k), letter(w % k)].iter().collect() };
+            let pats: Vec<scnr::Pattern> = (0..k * k).map(|w| scnr::Pattern::new(word(w), w + 1)).collect();
+            let total = k * k;
+            let mut idx: Vec<usize> = vec![0, 1, k - 1, k, total / 2, total - 2, total - 1];
+            for i in [255usize, 256, 4095, 4096, 16_383, 16_384, 32_766, 32_767, 32_768, 32_769, 33_000] {
+                if i < total {
+                    idx.push(i);
+                }
+            }
+            let mut x = 99usize;
+            for _ in 0..24 {
+                x = x.wrapping_mul(6364136223846793005).wrapping_add(1442695040888963407);
+                idx.push((x >> 33) % total);
+            }
+            let mut input = String::new();
+            let mut exp = Vec::new();
+            for (n, w) in idx.iter().enumerate() {
+                if n % 4 == 3 {
+                    // a lone first letter followed by a foreign character: nothing matches there
+                    input.push(letter(w / k));
+                    input.push('!');
+                }
+                let s = input.len();
+                input.push_str(&word(*w));
+                exp.push(Tok { tt: w + 1, start: s, end: input.len() });
+            }
+            (pats, vec![(input, exp)])
+        }
         Family::Pure { n, shape } => {
             let n = *n;
             let tok = |s: usize, e: usize| Tok { tt: 7, start: s, end: e };
@@ -246,7 +282,7 @@ impl Check for C17 {
         "C17"
     }
     fn rule(&self) -> &'static str {
-        "case = instance of a parametrised family: K single-character patterns with distinct sparse token types (K up to 70 000), all 2^L keywords over {a,b} sharing prefixes plus [ab]+, n numbered keywords k00000.. sharing their first character (fixed: 300, 1 100, 2 100; 2^10 keywords), chains x{N}y, [ab]{N}c, (xy){N}z, counted repetitions that are the whole pattern a{N}, (ab){N}, a{N,}, a{M,N} (exact, one short, one long, two in a row, after a near miss); probes: for lists the characters at indices 0, 1, K/2, 32 767, 32 768, 65 534..65 537, K-1 and pseudo-random ones with skipped foreign characters in between; for chains the accepted word of exact length, one unit shorter, 2^16 units shorter, one unit longer; oracle = closed form of the longest-match / first-listed rule for the family; build may return Err (then nothing else is required), a panic or a different token stream is a violation; quick = 24 generated instances of 1 000-16 000 states; thorough = additionally fixed instances crossing 65 535 states (lists with K = 65 534, 65 537, 66 000, 70 000 and the chain x{66000}y); non-trivial = instance whose unminimized automaton (feature-gated recorder) has > 1 000 states (quick) / > 65 535 states (thorough fixed instances)"
+        "case = instance of a parametrised family: K single-character patterns with distinct sparse token types (K up to 70 000), all 2^L keywords over {a,b} sharing prefixes plus [ab]+, n numbered keywords k00000.. sharing their first character (fixed: 300, 1 100, 2 100; 2^10 keywords), chains x{N}y, [ab]{N}c, (xy){N}z, all k*k two-letter keywords over k letters with a token type each (k = 182 crosses 65 535 states at depth two), counted repetitions that are the whole pattern a{N}, (ab){N}, a{N,}, a{M,N} (exact, one short, one long, two in a row, after a near miss); probes: for lists the characters at indices 0, 1, K/2, 32 767, 32 768, 65 534..65 537, K-1 and pseudo-random ones with skipped foreign characters in between; for chains the accepted word of exact length, one unit shorter, 2^16 units shorter, one unit longer; oracle = closed form of the longest-match / first-listed rule for the family; build may return Err (then nothing else is required), a panic or a different token stream is a violation; quick = 24 generated instances of 1 000-16 000 states; thorough = additionally fixed instances crossing 65 535 states (lists with K = 65 534, 65 537, 66 000, 70 000 and the chain x{66000}y); non-trivial = instance whose unminimized automaton (feature-gated recorder) has > 1 000 states (quick) / > 65 535 states (thorough fixed instances)"
     }
     fn cases(&self, thorough: bool) -> usize {
         if thorough {
@@ -258,6 +294,9 @@ impl Check for C17 {
     fn case_timeout_s(&self) -> u64 {
         7200
     }
+    fn fail_fast_fixed(&self) -> bool {
+        true
+    }
     fn fixed_cases(&self, thorough: bool) -> Vec<Case> {
         let mut v = vec![
             // small instances cross-check the closed forms cheaply (also with the `ends` matcher)
@@ -267,6 +306,8 @@ impl Check for C17 {
             case_of(&Family::ChainClass { n: 6 }),
             case_of(&Family::ChainGroup { n: 4 }),
             case_of(&Family::Numbered { n: 30 }),
+            case_of(&Family::Pairs { k: 5 }),
+            case_of(&Family::Pairs { k: 33 }),
             case_of(&Family::Pure { n: 7, shape: 0 }),
             case_of(&Family::Pure { n: 6, shape: 1 }),
             case_of(&Family::Pure { n: 9, shape: 2 }),
@@ -285,13 +326,28 @@ impl Check for C17 {
             case_of(&Family::ChainX { n: 4_200 }),
         ];
         if thorough {
-            v.push(case_of(&Family::ChainX { n: 66_000 }));
-            v.push(case_of(&Family::Pure { n: 40_000, shape: 0 }));
-            v.push(case_of(&Family::Pure { n: 6_000, shape: 1 }));
-            v.push(case_of(&Family::List { k: 70_000, base: 0x20000 - 0x800, tt_mul: 3, tt_add: 1 }));
-            v.push(case_of(&Family::List { k: 66_000, base: 0x4E00, tt_mul: 1, tt_add: 0 }));
-            v.push(case_of(&Family::List { k: 65_537, base: 0x3000, tt_mul: 2, tt_add: 5 }));
-            v.push(case_of(&Family::List { k: 65_534, base: 0x1000, tt_mul: 1, tt_add: 100_000 }));
+            // the instances beyond 65 535 states take minutes each: every one goes to the front of a
+            // chunk of its own (the runner cuts the list into one chunk per thread), cheapest first
+            let big = vec![
+                case_of(&Family::Pairs { k: 182 }),
+                case_of(&Family::List { k: 65_534, base: 0x1000, tt_mul: 1, tt_add: 100_000 }),
+                case_of(&Family::List { k: 65_537, base: 0x3000, tt_mul: 2, tt_add: 5 }),
+                case_of(&Family::List { k: 66_000, base: 0x4E00, tt_mul: 1, tt_add: 0 }),
+                case_of(&Family::List { k: 70_000, base: 0x20000 - 0x800, tt_mul: 3, tt_add: 1 }),
+                case_of(&Family::Pure { n: 6_000, shape: 1 }),
+                case_of(&Family::ChainX { n: 66_000 }),
+                case_of(&Family::Pure { n: 40_000, shape: 0 }),
+            ];
+            let small = std::mem::take(&mut v);
+            let per_chunk = (small.len() + big.len()).div_ceil(16).max(1);
+            let mut small = small.into_iter();
+            for b in big {
+                v.push(b);
+                for _ in 1..per_chunk {
+                    v.extend(small.next());
+                }
+            }
+            v.extend(small);
         }
         v
     }
@@ -349,6 +405,7 @@ impl Check for C17 {
             }
             Family::Numbered { n } if *n < 3 || *n > 90_000 => return Ok(discard("discard_shape")),
             Family::Pure { n, shape } if *n < 6 || *n > 200_000 || *shape > 3 => return Ok(discard("discard_shape")),
+            Family::Pairs { k } if *k < 2 || *k > 400 => return Ok(discard("discard_shape")),
             _ => {}
         }
         let (pats, probes) = instance(&f);
